@@ -423,7 +423,12 @@ def handleShell (c : Ctx) (toks : List String) : Option (Ctx × List String) :=
     match minimize user (concreteOracles lb ub 1e-30) cfg with
     | .error e => some (c, [s!"solve err {e}"])
     | .ok (r, st) =>
-      some (c, [s!"solve {showRes r}"] ++ st.cbStates.map (fun cb => s!"it {showV cb.x} {showF cb.f}") ++ ["end"])
+      -- (`ev` lines: the points of the objective calls, in order — used when a disagreement has to be located)
+      some (c, [s!"solve {showRes r}"] ++ st.cbStates.map (fun cb => s!"it {showV cb.x} {showF cb.f}") ++
+        (st.sf.log.filter (fun cl => cl.kind == CallKind.F)).map (fun cl => s!"ev {showV cl.arg}") ++
+        st.olog.map (fun rq => match rq with
+          | .dc stp f g t => s!"dc {showF stp} {showF f} {showF g} {taskCode t}"
+          | .xbar x _ _ => s!"xbar {showV x}") ++ ["end"])
   | ["bench", name, x] => do
     let x ← parseV x
     let arr := x.toArray
